@@ -71,6 +71,43 @@ def main():
         if r["mismatches"]:
             ck.mismatch("driver model and gopatch disagree (%s): %s" % (sc.name, "; ".join(r["mismatches"][:3])),
                         dict(rep, mismatches=r["mismatches"]), "corr:cli/run (Model/Cli.v run vs main.go mainCmd.Run)")
+    # ---- no-match files next to files on which changes apply and then fail, and files with a byte order mark:
+    # whatever happened to a neighbour, a file in which nothing matches is left alone / echoed as it is
+    BOM = b"\xef\xbb\xbf"
+    two = b"@@\nvar x expression\n@@\n-foo(x)\n+bar(x)\n\n@@\nvar x, y expression\n@@\n-baz(x)\n+baz(x, y)\n"
+    fails_late = b"package p\n\nfunc a() {\n\tfoo(1)\n\tbaz(2)\n}\n"          # first change applies, second matches and fails
+    fails_first = b"package p\n\nfunc a() {\n\tbaz(2)\n}\n"
+    applies = b"package p\n\nfunc a() {\n\tfoo(3)\n}\n"
+    quiet1 = b"package p\n\n// nothing here\nfunc q() { keep(1) }\n"
+    quiet2 = BOM + b"package p\n\nfunc r() { keep(2) }\n"
+    quiet3 = b"package   p\nfunc  s( ){keep( 3 )}\n"
+    nb_scs, nb_meta = [], []
+    for fl in (flagsets if thorough else scen.QUICK_FLAGSETS + [{"print": True}, {"diff": True}, {}]):
+        for first in (("a_fails_late.go", fails_late), ("a_fails_first.go", fails_first), ("a_applies.go", applies), ("a_quiet.go", b"package p\n\nfunc t() { keep(0) }\n")):
+            files = {first[0]: first[1], "b_quiet.go": quiet1, "c_bom.go": quiet2, "d_quiet.go": quiet3, "e_applies.go": applies}
+            nb_scs.append(Scenario([("p.patch", two)], files, fl, name="neighbour:%s" % first[0])); nb_meta.append(first[0])
+    for r, first in zip(clicorr.run_scenarios(nb_scs), nb_meta):
+        sc, ob = r["sc"], r["obs"]
+        fl = sc.flags
+        ck.count(("neighbour", first, tuple(sorted(k for k, v in fl.items() if v))))
+        ck.tally("flagsets", ",".join(sorted(k for k, v in fl.items() if v)) or "none")
+        ck.tally("patch_mode", "neighbours")
+        rep = dict(sc.describe(), argv=ob["argv"], rc=ob["rc"], stdout=ob["stdout"].decode("utf-8", "replace")[:3000],
+                   stderr=ob["stderr"].decode("utf-8", "replace")[:2000])
+        changed = [c for c in clicorr.tree_changes(ob) if os.path.basename(c) in ("b_quiet.go", "c_bom.go", "d_quiet.go")]
+        if changed:
+            ck.violation("a file in which nothing matches was touched on disk after a neighbour (%s) was processed: %s; flags %s" % (first, changed, fl), rep)
+        if fl.get("print") and not fl.get("diff"):
+            for qn, qb in (("b_quiet.go", quiet1), ("c_bom.go", quiet2), ("d_quiet.go", quiet3)):
+                if ob["stdout"].count(qb) != 1:
+                    ck.violation("--print-only: the original bytes of %s (nothing matches) should be echoed exactly once, found %d time(s)" % (qn, ob["stdout"].count(qb)), rep)
+        if fl.get("diff"):
+            for qn in ("b_quiet.go", "c_bom.go", "d_quiet.go"):
+                if ("--- " + qn).encode() in ob["stdout"] or ("/" + qn + "\n+++").encode() in ob["stdout"]:
+                    ck.violation("--diff: a diff was printed for %s, in which nothing matches" % qn, rep)
+        if r["mismatches"] and not r.get("load_err"):
+            ck.mismatch("driver model and gopatch disagree (%s): %s" % (sc.name, "; ".join(r["mismatches"][:3])),
+                        dict(rep, mismatches=r["mismatches"]), "corr:cli/run (Model/Cli.v run vs main.go mainCmd.Run)")
     ck.sample({"patch": scen.NOMATCH_PATCHES[0][1].decode(), "file": "notgofmt.go", "source": pool["notgofmt.go"].decode(),
                "flags": scs[0].flags})
     ck.sample({"patch": scen.NOMATCH_PATCHES[5][1].decode(), "file": "crlf.go", "source": pool["crlf.go"].decode()})
